@@ -132,34 +132,36 @@ def reachable_from(g, start, stop=()):
 def check(ck):
     prog = ck.prog
     # ---- C05.1 ---------------------------------------------------------------
+    from rules import common
+    all_sites = common.fault_sites(prog)
     n_sites = 0
-    for fi in prog.module_funcs(SRV):
-        sites = q.call_sites(prog, fi, lambda r, c: r == "class:jsonrpc.Fault")
-        if not sites:
-            continue
+    per_fn = {}
+    for site in all_sites:
+        fi, n, c = site.fi, site.node, site.call
         g = cfg_of(fi)
         dom = dominators(g)
-        for (n, c) in sites:
-            n_sites += 1
-            where = q.fn(fi)
-            code_e = kwarg(c, "code", 0)
-            msg_e = kwarg(c, "message", 1)
-            code = fold_code(prog, fi, code_e) if code_e is not None else None
-            cls, expected = classify(prog, fi, g, dom, n, c)
-            label = "%s: Fault #%d (%s)" % (where, [x[0].id for x in sites].index(n.id), cls or "unclassified")
-            if cls is None:
-                ck.bad("C05.1", label, "Fault site whose failure class the spec table does not know "
-                       "(code %s): cannot be matched with a standard code" % code, q.loc(fi, n))
-                continue
-            ck.require(code == expected, "C05.1", label, "code %s" % code,
-                       "%s is reported with code %s, the standard code is %s" % (cls, dump(code_e) if code_e is not None else "default -32000", expected),
-                       q.loc(fi, n))
-            ck.require(code is not None and code < 0, "C05.1b", label, "integer literal code",
-                       "error code is not a (negative) integer literal: %s" % (dump(code_e) if code_e is not None else "default"),
-                       q.loc(fi, n))
-            ck.require(msg_e is not None and is_string_expr(msg_e), "C05.1b", label + " message", "string-typed message",
-                       "error message is not a string-typed expression: %s" % (dump(msg_e) if msg_e is not None else "default"),
-                       q.loc(fi, n))
+        n_sites += 1
+        where = q.fn(fi)
+        idx = per_fn.get(where, 0)
+        per_fn[where] = idx + 1
+        code_e = site.expr("code", 0)
+        msg_e = site.expr("message", 1)
+        code = site.code()
+        cls, expected = classify(prog, fi, g, dom, n, c)
+        label = "%s: Fault #%d (%s)" % (where, idx, cls or "unclassified")
+        if cls is None:
+            ck.bad("C05.1", label, "Fault site whose failure class the spec table does not know "
+                   "(code %s): cannot be matched with a standard code" % code, q.loc(fi, n))
+            continue
+        ck.require(code == expected, "C05.1", label, "code %s" % code,
+                   "%s is reported with code %s, the standard code is %s" % (cls, dump(code_e) if code_e is not None else "default -32000", expected),
+                   q.loc(fi, n))
+        ck.require(code is not None and code < 0, "C05.1b", label, "integer literal code",
+                   "error code is not a (negative) integer literal: %s" % (dump(code_e) if code_e is not None else "default"),
+                   q.loc(fi, n))
+        ck.require(msg_e is not None and is_string_expr(msg_e), "C05.1b", label + " message", "string-typed message",
+                   "error message is not a string-typed expression: %s" % (dump(msg_e) if msg_e is not None else "default"),
+                   q.loc(fi, n))
     ck.stat("fault_sites", n_sites)
     ck.floor("C05.1", 12)
 
@@ -275,20 +277,15 @@ def check(ck):
         raise AnalysisError("anchor vanished: instance attribute lookups in the server module (found %d)" % n3)
 
     # ---- C05.4 message of -32603 -----------------------------------------------------------
-    for fi in prog.module_funcs(SRV):
-        g = cfg_of(fi)
-        dom = None
-        for (n, c) in q.call_sites(prog, fi, lambda r, c: r == "class:jsonrpc.Fault"):
-            code = fold_code(prog, fi, kwarg(c, "code", 0)) if kwarg(c, "code", 0) is not None else None
-            if code != spec.CODE_INTERNAL:
-                continue
-            msg = kwarg(c, "message", 1)
-            t = prov.origin(g, n, msg) if msg is not None else ("const", None)
-            has_exc = term_contains(t, lambda x: isinstance(x, tuple) and (x[0] == "exc" or (
-                x[0] == "attr" and x[2] == "format_exception") or (x[0] == "attr" and x[2] == "exc_info")))
-            ck.require(has_exc, "C05.4", "%s: -32603 message" % q.fn(fi), "message derives from the caught exception",
-                       "the -32603 message %s does not derive from the caught exception (type and text are lost)" % prov.show(t)[:120],
-                       q.loc(fi, n))
+    for site in all_sites:
+        if site.code() != spec.CODE_INTERNAL:
+            continue
+        t = site.origin("message", 1) or ("const", None)
+        has_exc = term_contains(t, lambda x: isinstance(x, tuple) and (x[0] == "exc" or (
+            x[0] == "attr" and x[2] == "format_exception") or (x[0] == "attr" and x[2] == "exc_info")))
+        ck.require(has_exc, "C05.4", "%s: -32603 message" % q.fn(site.fi), "message derives from the caught exception",
+                   "the -32603 message %s does not derive from the caught exception (type and text are lost)" % prov.show(t)[:120],
+                   q.loc(site.fi, site.node))
     ck.floor("C05.4", 5)
 
     # ---- C05.5 mismatch vs body -------------------------------------------------------------
